@@ -231,6 +231,50 @@ func genDriver(repo, out string) {
 		}
 		fmt.Fprintf(&b, "/-- locals of %s written by a goroutine it starts and accessed by another one: (name, every access inside a mutex section) -/\ndef %sShared : List (String × Bool) := [%s]\n\n", name, strings.ToLower(name[:1])+name[1:], strings.Join(shared, ", "))
 	}
+	// --- receive buffers: the size of the buffer each method hands to ReadFromUDP / Read. A buffer of
+	// exactly 64 bytes would make an over-long datagram look like a 64-byte one (the kernel truncates)
+	sizes := []string{}
+	for _, name := range []string{"Broadcast", "BroadcastTo", "SendUDP", "SendTCP", "Listen"} {
+		fn := findFunc(f, name, "ut0311")
+		size := 0
+		if fn != nil {
+			made := map[string]int{}
+			bad := false
+			ast.Inspect(fn.Body, func(n ast.Node) bool {
+				switch s := n.(type) {
+				case *ast.AssignStmt:
+					if len(s.Lhs) == 1 && len(s.Rhs) == 1 {
+						if call, ok := s.Rhs[0].(*ast.CallExpr); ok && src(call.Fun) == "make" && len(call.Args) >= 2 && src(call.Args[0]) == "[]byte" {
+							if v, ok := intLit(call.Args[1]); ok {
+								made[src(s.Lhs[0])] = int(v)
+							} else {
+								made[src(s.Lhs[0])] = 0
+							}
+						}
+					}
+				case *ast.CallExpr:
+					fun := src(s.Fun)
+					if strings.HasSuffix(fun, ".ReadFromUDP") || fun == "connection.Read" || strings.HasSuffix(fun, ".ReadFrom") {
+						if len(s.Args) == 1 {
+							if v, ok := made[src(s.Args[0])]; ok {
+								if size == 0 || v < size {
+									size = v
+								}
+							} else {
+								bad = true // reading into a slice expression or something not allocated here
+							}
+						}
+					}
+				}
+				return true
+			})
+			if bad {
+				size = 0
+			}
+		}
+		sizes = append(sizes, fmt.Sprintf("(%s, %d)", leanStr(name), size))
+	}
+	fmt.Fprintf(&b, "/-- size of the receive buffer each method reads a datagram into (0 = not recognised) -/\ndef bufSizes : List (String × Nat) := [%s]\n\n", strings.Join(sizes, ", "))
 	b.WriteString("end Uhppote.Gen.Driver\n")
 	writeIfChanged(filepath.Join(out, "Driver.lean"), b.String())
 }
